@@ -26,7 +26,7 @@ def snapshot(fx):
 
 
 class Proc:
-    def __init__(self, fx, n, api, park=None):
+    def __init__(self, fx, n, api, park=None, prefix=None):
         self.fx, self.n, self.api = fx, n, api
         self.trace = os.path.join(fx.root, "trace-%d.ndjson" % n)
         self.cmd = "cmd%d" % n
@@ -46,7 +46,7 @@ class Proc:
             args = ["out", "delete", "--all"]
         self.kill_ts = -1
         self.spawn_ts = time.monotonic_ns()
-        self.p = fx.spawn(args, env=env)
+        self.p = fx.spawn(args, env=env, prefix=prefix)
         self.exit_ts = -1
         self.rc = None
         self.err = ""
@@ -211,6 +211,86 @@ def offsets_scenario(bins, idx, rng):
         fx.cleanup()
 
 
+def gap_scenario(bins, idx, rng):
+    """2-4 contenders started together, each with its listen(2) call delayed by 300 ms (strace syscall injection): every
+    one of them has bound the lock address before any of them listens - the schedule in which bind alone decides nothing.
+    Exactly one may get past acquisition."""
+    fx = new_fixture(bins)
+    try:
+        k = rng.randint(2, 4)
+        prefix = ["strace", "-f", "-o", "/dev/null", "-e", "trace=listen", "-e", "inject=listen:delay_enter=300000"]
+        procs = [Proc(fx, i + 1, rng.choice(APIS), prefix=prefix) for i in range(k)]
+        for p in procs:
+            p.wait()
+        recs = [p.record(helpers_of(fx, p) if p.acquired() is False else 0, False) for p in procs]
+        return {"ev": "lock", "scenario": idx, "kind": "offsets", "spec": {"gap": True}, "procs": recs}
+    finally:
+        fx.cleanup()
+
+
+def nested_scenario(bins, idx, rng):
+    """Contenders started from INSIDE the holder: a command of a `run` invokes `checkpoint update` / `checkpoint delete` /
+    `run` on the same repository while its parent run holds the lock (same environment, same lock address). They are
+    concurrent invocations like any other: each must fail with a lock error and leave everything alone."""
+    fx = new_fixture(bins)
+    try:
+        with open(os.path.join(fx.repo, "t1", "more.txt"), "w") as f:
+            f.write("more\n")
+        fx.git("add", "-A"); fx.git("commit", "-q", "-m", "more")       # HEAD moved: an update would change the checkpoint
+        cp_path = fx.out_path("tracking", "checkpoint.json.zst")
+        before = open(cp_path, "rb").read() if os.path.exists(cp_path) else None
+        apis = rng.sample(["cp_update", "cp_delete", "run"], rng.randint(1, 3))
+        fx.add_cmd("t2", "nestedcmd", [{"op": "exit", "code": 0}], ext=".sh", ident={"cmd": "nestedcmd", "target": "t2"})
+        base = [fx.bins["monorail"], "-f", fx.cfg_path]
+        argv = {"cp_update": base + ["checkpoint", "update"], "cp_delete": base + ["checkpoint", "delete"],
+                "run": base + ["run", "-c", "nestedcmd", "-t", "t2"]}
+        steps = [{"op": "spawn", "argv": argv[a], "cwd": fx.repo, "out": "nested-%d" % k} for k, a in enumerate(apis)] + [{"op": "exit", "code": 0}]
+        fx.add_cmd("t1", "hold", steps, ext=".sh", ident={"cmd": "hold", "target": "t1"})
+        trace = os.path.join(fx.root, "trace-nested.ndjson")
+        spawn_ts = time.monotonic_ns()
+        res = fx.monorail(["run", "-c", "hold", "-t", "t1"], env={"MONORAIL_VERIF_TRACE": trace})
+        exit_ts = time.monotonic_ns()
+        ev = []
+        try:
+            ev = [json.loads(l) for l in open(trace) if l.strip()]
+        except (OSError, ValueError):
+            pass
+        pids = []
+        for e in ev:
+            if e["pid"] not in pids:
+                pids.append(e["pid"])
+        def stamp(pid, point):
+            return next((e["ts"] for e in ev if e["pid"] == pid and e["point"] == point), -1)
+        holder_pid = pids[0] if pids else -1
+        after = open(cp_path, "rb").read() if os.path.exists(cp_path) else None
+        procs = [{"p": 1, "api": "run", "spawn_ts": spawn_ts, "exit_ts": exit_ts, "acquired_ts": stamp(holder_pid, "lock.acquired"),
+                  "releasing_ts": stamp(holder_pid, "lock.releasing"), "kill_ts": -1, "trying_ts": stamp(holder_pid, "lock.trying"),
+                  "held_after_try_ms": -1, "rc": res["rc"] if res["rc"] is not None else -9, "err": "", "helpers": 0, "changed": False}]
+        nested_helpers = sum(1 for e in fx.events() if e["k"] == "start" and (e.get("id") or {}).get("cmd") == "nestedcmd")
+        for k, a in enumerate(apis):
+            try:
+                out = json.load(open(fx.marker("nested-%d" % k)))
+            except (OSError, ValueError):
+                out = {"rc": -3, "stderr": "no record", "t0": exit_ts}
+            pid = pids[k + 1] if len(pids) > k + 1 else -1
+            err = ""
+            for line in out.get("stderr", "").splitlines():
+                try:
+                    e = json.loads(line)
+                    if e.get("kind") == "error":
+                        err = e.get("type", "")
+                except ValueError:
+                    pass
+            procs.append({"p": k + 2, "api": a, "spawn_ts": stamp(pid, "lock.trying") if pid != -1 else spawn_ts + 1, "exit_ts": out.get("t0", exit_ts),
+                          "acquired_ts": stamp(pid, "lock.acquired") if pid != -1 else -1, "releasing_ts": stamp(pid, "lock.releasing") if pid != -1 else -1,
+                          "kill_ts": -1, "trying_ts": stamp(pid, "lock.trying") if pid != -1 else -1, "held_after_try_ms": -1,
+                          "rc": out.get("rc", -3), "err": err, "helpers": nested_helpers if a == "run" else 0,
+                          "changed": (after != before) if a in ("cp_update", "cp_delete") else os.path.isdir(fx.out_path("run", "3"))})
+        return {"ev": "lock", "scenario": idx, "kind": "nested", "spec": {"nested": apis}, "procs": procs}
+    finally:
+        fx.cleanup()
+
+
 def run(pid, tier):
     chk = vlib.Check(pid, tier, "model_checking")
     bins = vlib.build()
@@ -262,14 +342,19 @@ def run(pid, tier):
     nq = 6 if tier == "quick" else 60
     queued = [{"holder": rng.choice(APIS), "contenders": [APIS[q % 4]], "end": "release", "successor": "", "queued": True} for q in range(nq)]
     specs += queued
+    ngap = 6 if tier == "quick" else 60
     def one(i_s):
         i, s = i_s
+        if s == "gap":
+            return gap_scenario(bins, i, random.Random(chk.seed * 17 + i))
+        if s == "nested":
+            return nested_scenario(bins, i, random.Random(chk.seed * 17 + i))
         if s is None:
             return offsets_scenario(bins, i, random.Random(chk.seed * 17 + i))
         if s.get("queued"):
             return queued_scenario(bins, i, s, random.Random(chk.seed * 17 + i))
         return parked_scenario(bins, i, s, random.Random(chk.seed * 17 + i))
-    jobs = list(enumerate(specs + [None] * noff))
+    jobs = list(enumerate(specs + [None] * noff + ["gap"] * ngap + ["nested"] * (4 if tier == "quick" else 40)))
     with ThreadPoolExecutor(max_workers=10) as ex:
         recs = list(ex.map(one, jobs))
     # TLC integers are 32-bit: replace the nanosecond stamps of each scenario by their ranks (order and ties preserved)
